@@ -145,6 +145,7 @@ pub fn errno_name(e: i32) -> &'static str {
         5 => "EIO",
         12 => "ENOMEM",
         13 => "EACCES",
+        20 => "ENOTDIR",
         21 => "EISDIR",
         24 => "EMFILE",
         28 => "ENOSPC",
